@@ -78,6 +78,10 @@ type Spec struct {
 	// env: Variant/ID/Key describe the key-encryption AEAD (KEK); DEK names the template
 	DEK string
 	KEK *Spec
+	// ks: a keyset of several keys; ID = primary key id; the key field of the line is
+	// "scheme,route,variant,id,params,keyhex,status;..." (status E enabled / D disabled)
+	Keys    []*Spec
+	Enabled []bool
 }
 
 // DEKInfo describes a data-key template of the KMS envelope AEAD.
@@ -111,6 +115,22 @@ func ParseSpec(f []string) (*Spec, error) {
 	if err != nil {
 		return nil, err
 	}
+	if f[0] == "ks" {
+		s := &Spec{Scheme: "ks", Route: f[1], Variant: f[2], ID: uint32(id), Params: f[4]}
+		for _, e := range strings.Split(f[5], ";") {
+			g := strings.Split(e, ",")
+			if len(g) != 7 {
+				return nil, fmt.Errorf("ks entry")
+			}
+			k, err := ParseSpec(g[:6])
+			if err != nil {
+				return nil, err
+			}
+			s.Keys = append(s.Keys, k)
+			s.Enabled = append(s.Enabled, g[6] == "E")
+		}
+		return s, nil
+	}
 	s := &Spec{Scheme: f[0], Route: f[1], Variant: f[2], ID: uint32(id), Params: f[4], Key: hx.UH(f[5])}
 	switch s.Scheme {
 	case "etm":
@@ -143,6 +163,17 @@ func ParseSpec(f []string) (*Spec, error) {
 }
 
 func (s *Spec) String() string {
+	if s.Scheme == "ks" {
+		var es []string
+		for i, k := range s.Keys {
+			st := "D"
+			if s.Enabled[i] {
+				st = "E"
+			}
+			es = append(es, strings.ReplaceAll(k.String(), "|", ",")+","+st)
+		}
+		return fmt.Sprintf("ks|%s|%s|%d|%s|%s", s.Route, s.Variant, s.ID, s.Params, strings.Join(es, ";"))
+	}
 	return fmt.Sprintf("%s|%s|%s|%d|%s|%s", s.Scheme, s.Route, s.Variant, s.ID, s.Params, hx.H(s.Key))
 }
 
@@ -347,6 +378,25 @@ func (s *Spec) Build() (tink.AEAD, error) {
 			return nil, err
 		}
 		return aead.NewKMSEnvelopeAEAD2(DEKs[s.DEK].Tmpl(), kek), nil
+	}
+	if s.Scheme == "ks" {
+		var keys []*tinkpb.Keyset_Key
+		for i, k := range s.Keys {
+			st := tinkpb.KeyStatusType_DISABLED
+			if s.Enabled[i] {
+				st = tinkpb.KeyStatusType_ENABLED
+			}
+			pk, err := k.ProtoKey(st)
+			if err != nil {
+				return nil, err
+			}
+			keys = append(keys, pk)
+		}
+		h, err := HandleOf(s.ID, keys...)
+		if err != nil {
+			return nil, err
+		}
+		return aead.New(h)
 	}
 	switch s.Route {
 	case "H":
@@ -554,6 +604,45 @@ func RandSpec(r *hx.Rng) *Spec {
 		return e
 	}
 	return randPlain(r)
+}
+
+// RandKeyset draws a keyset of 2..5 keys with distinct ids, mixed schemes and variants,
+// some disabled; the primary is an enabled key.
+func RandKeyset(r *hx.Rng) *Spec {
+	n := 2 + r.Intn(4)
+	s := &Spec{Scheme: "ks", Route: "H", Variant: "R", Params: "-"}
+	used := map[uint32]bool{}
+	for i := 0; i < n; i++ {
+		k := randPlain(r)
+		k.Route = "H"
+		if k.Scheme == "xaes" {
+			k.Variant = hx.PickS(r, []string{"T", "R"})
+		} else {
+			k.Variant = hx.PickS(r, []string{"T", "C", "L", "R", "R"})
+		}
+		for used[k.ID] || k.ID == 0 {
+			k.ID = uint32(r.U64())
+		}
+		if i > 0 && r.Chance(30) {
+			// ids that differ only in one byte / share the low bytes with another key
+			k.ID = s.Keys[0].ID ^ (1 << uint(8*r.Intn(4)))
+			for used[k.ID] || k.ID == 0 {
+				k.ID++
+			}
+		}
+		used[k.ID] = true
+		s.Keys = append(s.Keys, k)
+		s.Enabled = append(s.Enabled, i == 0 || !r.Chance(25))
+	}
+	// primary: an enabled key
+	for {
+		i := r.Intn(n)
+		if s.Enabled[i] {
+			s.ID = s.Keys[i].ID
+			break
+		}
+	}
+	return s
 }
 
 // EnvPct is the share of KMS-envelope cases.
